@@ -884,3 +884,121 @@ Theorem replay_db0 now h :
   forallb ev_ok h = true -> fresh_replay now (aof_log (run_evs now h)) = true ->
   get_db (replay now (aof_log (run_evs now h))) 0 = get_db (run_evs now h) 0.
 Proof. intros Hok Hf. exact (inv_db _ _ _ (run_inv now h Hok Hf)). Qed.
+
+Corollary replay_dataset now h :
+  forallb ev_ok h = true -> fresh_replay now (aof_log (run_evs now h)) = true ->
+  dataset (get_db (replay now (aof_log (run_evs now h))) 0) = dataset (get_db (run_evs now h) 0).
+Proof. intros Hok Hf. rewrite (replay_db0 now h Hok Hf). reflexivity. Qed.
+
+(** ================= 5. the refuted parts of the property ================= *)
+Definition cmd (args : list bytes) : frame := FArray (map FBulk args).
+Definition hist (cs : list (list bytes)) : list ev := EConn 1 :: map (fun a => EFrame 1 (cmd a)) cs.
+Definition diverges (now : Z) (h : list ev) : Prop :=
+  get_db (replay now (aof_log (run_evs now h))) 0 <> get_db (run_evs now h) 0.
+Ltac diverge := unfold diverges; let H := fresh "H" in intro H; vm_compute in H; discriminate H.
+
+(** unlogged writers: the live dataset has the effect, the file does not *)
+Lemma getset_diverges : diverges 0 (hist [[bs "SET"; bs "k"; bs "a"]; [bs "GETSET"; bs "k"; bs "b"]]).
+Proof. diverge. Qed.
+Lemma hmset_diverges : diverges 0 (hist [[bs "HMSET"; bs "h"; bs "f"; bs "1"]]).
+Proof. diverge. Qed.
+Lemma pexpire_diverges : diverges 0 (hist [[bs "SET"; bs "k"; bs "a"]; [bs "PEXPIRE"; bs "k"; bs "100000"]]).
+Proof. diverge. Qed.
+Lemma xreadgroup_diverges :
+  diverges 0 (hist [[bs "XADD"; bs "x"; bs "1-1"; bs "f"; bs "v"]; [bs "XGROUP"; bs "CREATE"; bs "x"; bs "g"; bs "0"];
+                    [bs "XREADGROUP"; bs "GROUP"; bs "g"; bs "c"; bs "STREAMS"; bs "x"; bs ">"]]).
+Proof. diverge. Qed.
+(** ... and at the level of the completeness obligation: each of the four names changes a
+    database in a way lazy expiry cannot *)
+Lemma unlogged_writers_not_inert :
+  forallb (fun n => negb (mem_name n write_commands)) unlogged_writers = true /\
+  (exists d parts r d', exec_db 0 d (bs "GETSET") parts None = Some (r, d') /\ ~ lazy_removed 0 d d') /\
+  (exists d parts r d', exec_db 0 d (bs "HMSET") parts None = Some (r, d') /\ ~ lazy_removed 0 d d') /\
+  (exists d parts r d', exec_db 0 d (bs "PEXPIRE") parts None = Some (r, d') /\ ~ lazy_removed 0 d d') /\
+  (exists d parts r d', exec_db 0 d (bs "XREADGROUP") parts None = Some (r, d') /\ ~ lazy_removed 0 d d').
+Proof.
+  split; [vm_compute; reflexivity|]. repeat split.
+  - exists empty_db, [FBulk (bs "GETSET"); FBulk (bs "k"); FBulk (bs "b")]. eexists. eexists.
+    split; [vm_compute; reflexivity|]. eapply (not_lr_new 0 _ _ (bs "k")); vm_compute; reflexivity.
+  - exists empty_db, [FBulk (bs "HMSET"); FBulk (bs "h"); FBulk (bs "f"); FBulk (bs "1")]. eexists. eexists.
+    split; [vm_compute; reflexivity|]. eapply (not_lr_new 0 _ _ (bs "h")); vm_compute; reflexivity.
+  - exists (put_entry empty_db (bs "k") {| e_val := VStr (bs "a"); e_exp := None |}),
+           [FBulk (bs "PEXPIRE"); FBulk (bs "k"); FBulk (bs "100000")]. eexists. eexists.
+    split; [vm_compute; reflexivity|].
+    eapply (not_lr_changed 0 _ _ (bs "k")); [vm_compute; reflexivity|vm_compute; reflexivity|discriminate].
+  - pose (d0 := match exec_db 0 empty_db (bs "XADD") [FBulk (bs "XADD"); FBulk (bs "x"); FBulk (bs "1-1"); FBulk (bs "f"); FBulk (bs "v")] None with
+                | Some (_, d) => d | None => empty_db end).
+    pose (d1 := match exec_db 0 d0 (bs "XGROUP") [FBulk (bs "XGROUP"); FBulk (bs "CREATE"); FBulk (bs "x"); FBulk (bs "g"); FBulk (bs "0")] None with
+                | Some (_, d) => d | None => empty_db end).
+    exists d1, [FBulk (bs "XREADGROUP"); FBulk (bs "GROUP"); FBulk (bs "g"); FBulk (bs "c"); FBulk (bs "STREAMS"); FBulk (bs "x"); FBulk (bs ">")].
+    eexists. eexists. split; [vm_compute; reflexivity|].
+    eapply (not_lr_changed 0 _ _ (bs "x")); [vm_compute; reflexivity|vm_compute; reflexivity|discriminate].
+Qed.
+
+(** the log carries no SELECT: a command issued in database 1 is replayed into database 0 *)
+Lemma select_diverges : diverges 0 (hist [[bs "SELECT"; bs "1"]; [bs "SET"; bs "k"; bs "a"]]).
+Proof. diverge. Qed.
+(** removal of an expired key by a read is not logged (and TTLs are logged relative): here
+    GET removes k, INCR recreates it as 1; the replay increments the stale 5 *)
+Definition expired_history : list ev :=
+  hist [[bs "SET"; bs "k"; bs "5"; bs "PX"; bs "0"]; [bs "GET"; bs "k"]; [bs "INCR"; bs "k"]].
+Lemma expired_diverges : diverges 0 expired_history /\ forallb ev_ok expired_history = true /\
+  fresh_replay 0 (aof_log (run_evs 0 expired_history)) = false.
+Proof. split; [diverge|]. split; vm_compute; reflexivity. Qed.
+
+(** random outcomes are logged verbatim: two admissible outcomes of the same SPOP / XADD *
+    leave the same file and different datasets, so no function of the file restores both *)
+Lemma spop_verbatim :
+  let s := run_evs 0 (hist [[bs "SADD"; bs "s"; bs "a"; bs "b"]]) in
+  let s1 := snd (process_frame 0 s 1 (cmd [bs "SPOP"; bs "s"]) (Some (FBulk (bs "a")))) in
+  let s2 := snd (process_frame 0 s 1 (cmd [bs "SPOP"; bs "s"]) (Some (FBulk (bs "b")))) in
+  aof_log s1 = aof_log s2 /\ get_db s1 0 <> get_db s2 0 /\
+  is_error (fst (process_frame 0 s 1 (cmd [bs "SPOP"; bs "s"]) (Some (FBulk (bs "a"))))) = false /\
+  is_error (fst (process_frame 0 s 1 (cmd [bs "SPOP"; bs "s"]) (Some (FBulk (bs "b"))))) = false.
+Proof.
+  cbv zeta. split; [vm_compute; reflexivity|]. split; [intro H; vm_compute in H; discriminate H|].
+  split; vm_compute; reflexivity.
+Qed.
+Lemma xadd_auto_verbatim :
+  let s := run_evs 0 (hist []) in
+  let q := cmd [bs "XADD"; bs "x"; bs "*"; bs "f"; bs "v"] in
+  let s1 := snd (process_frame 0 s 1 q (Some (FBulk (bs "1700000000000-0")))) in
+  let s2 := snd (process_frame 0 s 1 q (Some (FBulk (bs "1700000000001-0")))) in
+  aof_log s1 = aof_log s2 /\ get_db s1 0 <> get_db s2 0 /\
+  fst (process_frame 0 s 1 q (Some (FBulk (bs "1700000000000-0")))) = FBulk (bs "1700000000000-0") /\
+  fst (process_frame 0 s 1 q (Some (FBulk (bs "1700000000001-0")))) = FBulk (bs "1700000000001-0").
+Proof.
+  cbv zeta. split; [vm_compute; reflexivity|]. split; [intro H; vm_compute in H; discriminate H|].
+  split; vm_compute; reflexivity.
+Qed.
+
+(** start-up: the implementation's own replay executes nothing, and a file that is not
+    UTF-8 text stops the server from starting *)
+Lemma restart_loses_dataset :
+  let s := run_evs 0 (hist [[bs "SET"; bs "k"; bs "a"]; [bs "RPUSH"; bs "l"; bs "x"]]) in
+  exists s', restart s = Some s' /\ get_db s' 0 = empty_db /\ get_db s 0 <> empty_db /\ aof_log s' = aof_log s.
+Proof. cbv zeta. eexists. split; [vm_compute; reflexivity|]. split; [reflexivity|]. split; [|reflexivity].
+  intro H; vm_compute in H; discriminate H. Qed.
+Lemma restart_fails_on_binary :
+  restart (run_evs 0 (hist [[bs "SET"; bs "k"; [255]]])) = None.
+Proof. vm_compute. reflexivity. Qed.
+
+(** non-vacuity of the replay theorem: a history with direct commands, a transaction, a
+    refused command, TTLs and reads satisfies the hypotheses and ends with data in place *)
+Definition sample_history : list ev :=
+  [EConn 1; EConn 2;
+   EFrame 1 (cmd [bs "SET"; bs "k"; bs "a"; bs "EX"; bs "100"]);
+   EFrame 2 (cmd [bs "MULTI"]);
+   EFrame 2 (cmd [bs "RPUSH"; bs "l"; bs "x"; bs "y"]);
+   EFrame 2 (cmd [bs "INCR"; bs "k"]);
+   EFrame 2 (cmd [bs "HSET"; bs "h"; bs "f"; bs "1"]);
+   EFrame 1 (cmd [bs "GET"; bs "k"]);
+   EFrame 2 (cmd [bs "EXEC"]);
+   EFrame 1 (cmd [bs "XADD"; bs "x"; bs "1-1"; bs "f"; bs "v"]);
+   EFrame 1 (cmd [bs "LPOP"; bs "l"]);
+   EFrame 1 (cmd [bs "EXPIRE"; bs "h"; bs "50"]);
+   EClose 2].
+Lemma sample_history_ok :
+  forallb ev_ok sample_history = true /\ fresh_replay 0 (aof_log (run_evs 0 sample_history)) = true /\
+  len (aof_log (run_evs 0 sample_history)) = 7 /\ len (d_data (get_db (run_evs 0 sample_history) 0)) = 4.
+Proof. repeat split; vm_compute; reflexivity. Qed.
